@@ -810,3 +810,6 @@ def run(run, tier, seed, replay=None):
     run.sample(dict(stream="pairs", kinds=j["kinds"], ops=j["user_ops"]))
     j = results[3][1][0]
     run.sample(dict(stream="random", kinds=j["kinds"], ops=j["user_ops"]))
+    # C04E (appended hook): the bridge books -> design + the pipeline model against the implementation's package, per history
+    from . import c04e
+    c04e.run_tie(run, tier, seed, results)
